@@ -1,5 +1,6 @@
 import Scion.Model.Signed
 import Scion.Proofs.Signed
+import Scion.Gen.Signed
 /-!
 # C38 — Signed control-plane messages verify only when untouched
 
@@ -381,5 +382,34 @@ theorem signature_clause_not_implied :
     simp [Toy.S, Toy.ad0, Toy.h0, adLenOf, checkPubKeyAlgo, algoKnown]
   have := (hall _ Toy.run_ok _ _ _ _ _ hv).2.2.1
   simp at this
+
+/-! ## Facts regenerated from the source on every run (T3) -/
+
+/-- What the model hard-codes about `pkg/scrypto/signed`, re-read from the source: the algorithm
+table has exactly the three ECDSA entries `1, 2, 3` (all `pkECDSA`, so `checkPubKeyAlgo` is
+`algoKnown ∧ ECDSA key`); `Verify` runs its guards in the modelled order and feeds the RAW
+`signed.HeaderAndBody` (not a re-encoding) plus the associated data to `computeSignatureInput`,
+whose two branches copy/hash `hdrAndBody` first and then every associated-data slice in order. -/
+theorem gen_facts :
+    (Gen.Signed.unknownSignatureAlgorithm, Gen.Signed.eCDSAWithSHA256, Gen.Signed.eCDSAWithSHA384,
+      Gen.Signed.eCDSAWithSHA512) = (0, 1, 2, 3) ∧
+    Gen.Signed.detailsKeys = ["ECDSAWithSHA256", "ECDSAWithSHA384", "ECDSAWithSHA512"] ∧
+    Gen.Signed.detailsPubKeyAlgo = ["pkECDSA", "pkECDSA", "pkECDSA"] ∧
+    Gen.Signed.detailsHash = ["crypto.SHA256", "crypto.SHA384", "crypto.SHA512"] ∧
+    Gen.Signed.verifyCalls = ["extractHeaderAndBody", "checkCanonicalHeaderAndBody",
+      "associatedDataLen", "checkPubKeyAlgo", "computeSignatureInput", "VerifyASN1"] ∧
+    Gen.Signed.signCalls = ["associatedDataLen", "checkPubKeyAlgo", "Marshal", "Marshal",
+      "computeSignatureInput", "Sign"] ∧
+    Gen.Signed.verifyInputArgs = ["hdr.SignatureAlgorithm", "signed.HeaderAndBody", "associatedData..."] ∧
+    Gen.Signed.signInputArgs = ["hdr.SignatureAlgorithm", "rawHdrAndBody", "associatedData..."] ∧
+    Gen.Signed.verifyASN1Args = ["pub", "input", "signed.Signature"] ∧
+    Gen.Signed.inputWrites = ["copy hdrAndBody", "range associatedData", "copy d",
+      "Write hdrAndBody", "range associatedData", "Write d"] ∧
+    (∀ a, algoKnown a = true ↔ a = Gen.Signed.eCDSAWithSHA256 ∨ a = Gen.Signed.eCDSAWithSHA384 ∨
+      a = Gen.Signed.eCDSAWithSHA512) := by
+  refine ⟨rfl, rfl, rfl, rfl, rfl, rfl, rfl, rfl, rfl, rfl, ?_⟩
+  intro a
+  simp [algoKnown, Gen.Signed.eCDSAWithSHA256, Gen.Signed.eCDSAWithSHA384, Gen.Signed.eCDSAWithSHA512]
+  omega
 
 end Scion.C38
